@@ -755,6 +755,9 @@ class Path:
             raise SymRaise(mk_exc('KeyError'))
         if isinstance(v, SymMap):   # containers
             return containers.map_getitem(self, v, k)
+        if isinstance(v, containers.SymKeySeq):   # absnodes
+            from . import absnodes
+            return absnodes.kseq_getitem(self, v, k)
         if isinstance(v, SObj):
             return self.call_method(v, '__getitem__', [k], {})
         if isinstance(v, (ExtV, ClassV)):
@@ -875,6 +878,9 @@ class Path:
             raise Unsupported('truthiness of symbolic float')
         if isinstance(v, seqs.KINDS):
             return seqs.truthy(self, v)
+        if isinstance(v, containers.SYM):   # absnodes
+            from . import absnodes
+            return absnodes.truthy(self, v)
         if type(v).__name__ == 'SymStr':
             from . import strings
             return strings.truthy(self, v)
@@ -1461,6 +1467,9 @@ class Path:
             raise InterpError('unforced lazy value')
         if isinstance(v, seqs.KINDS):
             return seqs.getattr_hook(self, v, attr)
+        if isinstance(v, SymKey):   # absnodes: abstract attribute of an opaque key
+            from . import absnodes
+            return absnodes.key_getattr(self, v, attr)
         if isinstance(v, SObj):
             if attr in v.fields:
                 x = v.fields[attr]
@@ -1876,7 +1885,11 @@ class Path:
 
     def ex_AnnAssign(self, st, fr):
         if st.value is not None:
-            self.assign(st.target, self.ev(st.value, fr), fr)
+            v = self.ev(st.value, fr)
+            if isinstance(v, (dict, set)) and not v:   # absnodes: typed empty local (option local_types)
+                from . import absnodes
+                v = absnodes.typed_empty_local(self, st, v, fr)
+            self.assign(st.target, v, fr)
 
     def ex_AugAssign(self, st, fr):
         t = st.target
@@ -2168,9 +2181,14 @@ class Path:
             if isinstance(v, seqs.SymADT):
                 return seqs.match_class(self, pat, v, binds, fr)
             t = self.ev(pat.cls, fr)
-            if not self.ex.intrinsics.isinstance(self, v, t):
+            isa = self.ex.intrinsics.isinstance(self, v, t)
+            if isa is False:
                 return False
             rs = []
+            if isa is not True:   # absnodes: symbolic class of an opaque key
+                if pat.patterns or pat.kwd_attrs:
+                    raise Unsupported('class pattern with sub-patterns on an abstract key')
+                rs.append(as_z3bool(isa))
             if pat.patterns:
                 # positional sub-patterns via __match_args__
                 if isinstance(v, SObj):
